@@ -214,7 +214,14 @@ fn rt<T: serde::Serialize + serde::de::DeserializeOwned>(v: &T, eq: impl Fn(&T, 
     let pc = postcard::to_stdvec(v);
     let js = serde_json::to_vec(v);
     let pc_ok = pc.as_ref().ok().and_then(|b| postcard::from_bytes::<T>(b).ok()).map(|w| eq(v, &w)).unwrap_or(false);
-    let js_ok = js.as_ref().ok().and_then(|b| serde_json::from_slice::<T>(b).ok()).map(|w| eq(v, &w)).unwrap_or(false);
+    // a self-describing format is read back in more than one way: from a slice (may lend borrowed strings), from a
+    // reader (cannot), and through the dynamically typed Value
+    let js_ok = js.as_ref().ok().map(|b| {
+        let a = serde_json::from_slice::<T>(b).ok().map(|w| eq(v, &w)).unwrap_or(false);
+        let r = serde_json::from_reader::<_, T>(&b[..]).ok().map(|w| eq(v, &w)).unwrap_or(false);
+        let val = serde_json::from_slice::<serde_json::Value>(b).ok().and_then(|x| serde_json::from_value::<T>(x).ok()).map(|w| eq(v, &w)).unwrap_or(false);
+        a && r && val
+    }).unwrap_or(false);
     format!(
         "pc={} js={} rt={}{}",
         pc.map(|b| dig(&b)).unwrap_or("err".into()),
